@@ -231,6 +231,8 @@ pub struct Execution {
     pub bounds: Arc<Bounds>,
     /// a free-running call exceeded its step budget and the thread was stopped
     pub incomplete: bool,
+    /// E2 only: per-thread map events stamped with the global clock (empty unless requested)
+    pub e2_events: Vec<Vec<Ev>>,
 }
 
 pub fn apply_pub(level: &PriceLevel, idgen: &UuidGenerator, op: &COp) -> CRes {
@@ -388,6 +390,7 @@ pub fn run_e1(
         exec: Some(exec),
         bounds,
         incomplete: false,
+        e2_events: Vec::new(),
     }
 }
 
@@ -395,12 +398,19 @@ pub fn run_e1(
 pub static E2_CLOCK: AtomicU64 = AtomicU64::new(0);
 
 /// E2: free-running threads on real cores with seeded delay injection at the hooks.
+thread_local! {
+    /// set by the caller (C13) to make the next `run_e2` on this thread record map events
+    pub static E2_WANT_EVENTS: std::cell::Cell<bool> = const { std::cell::Cell::new(false) };
+}
+
 pub fn run_e2(prog: &Program, seed: u64, delay_prob: u32, pollers: usize, polled: &mut Vec<(u64, u64, u64)>) -> Execution {
+    let want_events = E2_WANT_EVENTS.with(|c| c.get());
     let (level, idgen, bounds) = setup(prog);
     let n = prog.threads.len();
     let barrier = Arc::new(std::sync::Barrier::new(n + pollers));
     let stop = Arc::new(std::sync::atomic::AtomicBool::new(false));
     let mut logs: Vec<Vec<CRec>> = Vec::new();
+    let mut evlogs: Vec<Vec<Ev>> = Vec::new();
     let mut seen: Vec<Vec<(u64, u64, u64)>> = Vec::new();
     std::thread::scope(|s| {
         let mut hs = Vec::new();
@@ -411,6 +421,9 @@ pub fn run_e2(prog: &Program, seed: u64, delay_prob: u32, pollers: usize, polled
             let barrier = barrier.clone();
             hs.push(s.spawn(move || {
                 hook::delay_begin(seed ^ (ti as u64 + 1).wrapping_mul(0x9E37_79B9), delay_prob);
+                if want_events {
+                    hook::e2_log_begin();
+                }
                 let mut log = Vec::new();
                 barrier.wait();
                 for (oi, op) in ops.iter().enumerate() {
@@ -443,7 +456,7 @@ pub fn run_e2(prog: &Program, seed: u64, delay_prob: u32, pollers: usize, polled
                     });
                 }
                 hook::set_mode(hook::Mode::Off);
-                log
+                (log, hook::e2_log_take())
             }));
         }
         let mut ps = Vec::new();
@@ -461,7 +474,9 @@ pub fn run_e2(prog: &Program, seed: u64, delay_prob: u32, pollers: usize, polled
             }));
         }
         for h in hs {
-            logs.push(h.join().expect("worker"));
+            let (l, e) = h.join().expect("worker");
+            logs.push(l);
+            evlogs.push(e);
         }
         stop.store(true, Ordering::Release);
         for p in ps {
@@ -484,6 +499,7 @@ pub fn run_e2(prog: &Program, seed: u64, delay_prob: u32, pollers: usize, polled
         exec: None,
         bounds,
         incomplete,
+        e2_events: if want_events { evlogs } else { Vec::new() },
     }
 }
 
